@@ -412,9 +412,10 @@ def insert_rule(ctx, o):
         o.site(f, att[0], "insert only appends")
         return
     for c in mv:
-        kw = {k.arg: k.value for k in c.keywords}
-        anchor = kw.get('before')
-        if anchor is None or kw.get('after') is not None:
+        ba = facts.bound_args(c, prog.func('task._ChildrenList.move'))
+        anchor = ba[1] if len(ba) > 1 else None
+        after_arg = ba[2] if len(ba) > 2 else None
+        if anchor is None or (after_arg is not None and not (isinstance(after_arg, ast.Constant) and after_arg.value is None)):
             o.undecided(f, c, c, "move() call without a `before` anchor")
             continue
         if not isinstance(anchor, ast.Name):
